@@ -89,9 +89,10 @@ def run_config(ctx, rng, F, m, t, bound, n, fn, variant, lines, impl, meta, keys
     ctx.count(f'n:{n}')
     # independent PRF outputs
     r_ref = {S: orc.prf_reference(k, bound, uci, count) for S, k in keys.items()}
-    # coefficient layout: the list variant evaluates sum_j r[h*d+j] x^(d-j) (Horner), np_pseudorandom_share_0 evaluates
-    # r.reshape(n,d) @ [x^1..x^d] = sum_j r[h*d+j] x^(j+1); `blk` maps a block of d outputs to the list variant's order
-    rev = fn == 'zero' and variant == 'np'
+    # coefficient layout: both variants evaluate sum_j r[h*d+j] x^(d-j) (the list variant by Horner, np_pseudorandom_share_0 as
+    # r.reshape(n,d) @ [x^d..x^1] since repo fix d7e87af; before that the np variant used the reversed order x^1..x^d, so that
+    # the two variants gave different zero sharings for t >= 2)
+    rev = False
 
     def blk(prl):
         prl = [int(v) for v in prl]
@@ -218,10 +219,8 @@ def run(ctx):
         req += lines
         exp += impl
         info += meta
-    ctx.note('observation (triaged, no finding): np_pseudorandom_share_0 uses the reversed coefficient order of '
-             'pseudorandom_share_zero (sum_j r[h*d+j] x^(j+1) vs x^(d-j)); for t >= 2 the two variants give different but '
-             'each internally consistent zero sharings on identical keys/uci; each variant is checked against the oracle '
-             'with its own layout, the Lean model gets the np outputs block-reversed')
+    ctx.note('list and array variants of the PRSS functions are checked against ONE oracle layout and one Lean model '
+             '(np_pseudorandom_share_0 used the reversed coefficient order before repo fix d7e87af)')
     model = common.LeanDriver('Thresha').run(req)
     ctx.compare('pseudorandom_share(_zero) of every party vs MpycV.Thresha.prssShare/prssZero', exp, model, info)
     if req:
